@@ -40,8 +40,9 @@ Theorem C07_arrays : forall l r m ielems velems ci cv,
 Proof. exact ragged_arrays. Qed.
 Print Assumptions C07_arrays.
 
-(* the example binds subarray min(2, n-1) and calls it first / second / third accordingly *)
-Theorem C07_example : forall l n, 1 <= n ->
+(* the example binds subarray min(2, n-1) and calls it first / second / third accordingly -- for the
+   selection GENERATED from each composer's source *)
+Theorem C07_example : forall l n, In l ragged_languages -> 1 <= n ->
   let k0 := fst (example_of l n) - origin l in
   0 <= k0 < n /\ k0 = Z.min 2 (n - 1) /\ snd (example_of l n) = position_word k0.
 Proof. exact example_ok. Qed.
